@@ -274,3 +274,45 @@ def unwrap_trivial(node):
             node = node["e"]
         else:
             return node
+
+
+def summarize_bool(node):
+    """Compact, line-free summary of a boolean-valued expression."""
+    n = unwrap_trivial(node)
+    k = n.get("k")
+    if k == "Lit":
+        return str(n.get("v")).lower()
+    if k == "MethodCall":
+        recv = unwrap_trivial(n["recv"])
+        r = local_name_of(recv) or (recv.get("name") if recv.get("k") in ("MethodCall", "Field") else recv.get("k"))
+        args = ",".join(local_name_of(unwrap_trivial(a)) or unwrap_trivial(a).get("k", "?") for a in n.get("a", []))
+        return "%s.%s(%s)" % (r, n["name"], args)
+    if k == "Binary":
+        op = {"Eq": "==", "Ne": "!=", "And": "&&", "Or": "||", "Lt": "<", "Le": "<=", "Gt": ">", "Ge": ">="}.get(n["op"], n["op"])
+        return "(%s %s %s)" % (summarize_bool(n["lhs"]), op, summarize_bool(n["rhs"]))
+    if k == "Path":
+        return n.get("res", "?").split("::")[-1]
+    if k == "Unary":
+        return "%s%s" % ("!" if n.get("op") == "Not" else n.get("op"), summarize_bool(n["e"]))
+    if k == "Call":
+        return "%s(..)" % (last(callee(n)) or "call")
+    if k == "Field":
+        return "%s.%s" % (summarize_bool(n["e"]), n["name"])
+    if k == "Block":
+        return "{..}"
+    return k or "?"
+
+
+def nested_table(match, prefix=()):
+    """Rows of a (possibly nested) match: (tuple of pattern keys, guard summary or None, outcome summary)."""
+    rows = []
+    for a in match["arms"]:
+        body = unwrap_trivial(a["body"])
+        g = summarize_bool(a["guard"]) if "guard" in a else None
+        for alt in pat_alts(a["pat"]):
+            key = prefix + (pat_key(alt),)
+            if body.get("k") == "Match" and (body.get("msrc") == "Normal"):
+                rows.extend(nested_table(body, key + ((g,) if g else ())))
+            else:
+                rows.append((key, g, summarize_bool(body)))
+    return rows
